@@ -23,7 +23,9 @@ impl<A: Actor> WeakAddr<A> {
     }
 
     pub fn stopped(&self) -> bool {
+        // `peek` only sees a result that some clone has already polled out of the shared future
         self.running.peek().is_some()
+            || futures::FutureExt::now_or_never(self.running.clone()).is_some()
     }
 
     pub fn try_stop(&mut self) -> Result<()> {
